@@ -208,7 +208,11 @@ func typeTag(t types.Type) *Term {
 // fieldHeapKey names the Burstall array for field i of named struct type t.
 func fieldHeapKey(t types.Type, i int) (key string, sort string) {
 	st := t.Underlying().(*types.Struct)
-	key = fmt.Sprintf("H_%s_%s", mangleType(t), st.Field(i).Name())
+	fname := st.Field(i).Name()
+	if fname == "_" {
+		fname = fmt.Sprintf("_blank%d", i)
+	}
+	key = fmt.Sprintf("H_%s_%s", mangleType(t), fname)
 	heapValType[key] = st.Field(i).Type()
 	return key, arraySort("Int", sortOf(st.Field(i).Type()))
 }
